@@ -2,7 +2,7 @@
 (* DISPATCH 100 c01_model *)
 (* DISPATCH 101 c01_holds *)
 From Coq Require Import List ZArith NArith Bool Arith.
-From MV Require Import Common.Sx Queue.Model Queue.Spec Queue.Wire.
+From MV Require Import Common.Sx Queue.Model Queue.Spec Queue.Wire Queue.ExitComplete.
 Import ListNotations.
 
 (* the mechanism model replayed on the recorded schedule: per label (writer pc, data word, events) *)
@@ -28,6 +28,8 @@ Definition c01_stress_spec (case i : sx) : bool :=
 Definition c01_holds (x : sx) : sx :=
   let case := sx_nth x 0 in let i := sx_nth x 1 in
   of_bool match sx_tag case with
-          | 0%Z => c01_spec (sx_bool (sx_arg case 1)) (pushes (all_labels case)) (impl_events i)
+          | 0%Z => c01_spec (sx_bool (sx_arg case 1)) (pushes (all_labels case)) (impl_events i) &&
+                   (* the writer ended without a shutdown request, nothing displaced, drain complete: everything delivered *)
+                   exit_complete_b (all_labels case) (impl_events i)
           | _ => c01_stress_spec case i
           end.
